@@ -23,7 +23,7 @@ prior = json.load(open(main)) if os.path.exists(main) else {}
 
 
 def run_check(prop, tier, repo):
-    env = dict(os.environ, VERIF_NO_EVIDENCE='1')
+    env = dict(os.environ, VERIF_NO_EVIDENCE='1', VERIF_REPLAYS=os.path.join(os.path.dirname(repo), 'replays'))
     if repo != '/repo':
         env['VERIF_REPO'] = repo
     r = subprocess.run([os.path.join(HERE, 'check'), prop, '--tier', tier], capture_output=True, text=True, env=env)
